@@ -135,6 +135,7 @@ def check(repo, res, tier):
     _ai.INLINED.clear()
     n = IX.check_rows(repo, res)
     res.floor("row-assembly cases interpreted", n, 140)
+    res.rule("R-BUDGET", "all solving entry points give their library integrator the same internal step budget per output interval")
     n2 = IX.check_entrypoints(repo, res)
     res.rule("R-FRESH", "a solve returns the solution of the model as it stands: no stale result after the initial state, initial time or parameters change")
     n3 = IX.check_histories(repo, res)
